@@ -396,6 +396,18 @@ impl Sites {
 }
 
 /// The value an input counter of `kind` reports for input `id`.
+/// Whether the case registers a per-input counter of `kind` (0 bytes, 1 chars, 2 cycles, 3 items):
+/// bits 0..3 of `input_counters` stand for bytes, items, chars, cycles.
+pub fn input_counter_registered(mask: u8, kind: u64) -> bool {
+    let bit = match kind {
+        0 => 1,
+        3 => 2,
+        1 => 4,
+        _ => 8,
+    };
+    mask & bit != 0
+}
+
 pub fn count_value(id: u64, kind: u64) -> u64 {
     (id % 997) * 3 + kind + 1
 }
@@ -538,6 +550,12 @@ where
     }
     if case.input_counters & 2 != 0 {
         b = b.input_counter(|i: &I| ItemsCount::new(sites().count(i.id(), 3)));
+    }
+    if case.input_counters & 4 != 0 {
+        b = b.input_counter(|i: &I| divan::counter::CharsCount::new(sites().count(i.id(), 1)));
+    }
+    if case.input_counters & 8 != 0 {
+        b = b.input_counter(|i: &I| divan::counter::CyclesCount::new(sites().count(i.id(), 2)));
     }
     if case.counter_after_input {
         b = consts(b);
